@@ -9,6 +9,7 @@ import (
 	"math/rand"
 	"runtime"
 	"sort"
+	"strings"
 	"sync"
 	"sync/atomic"
 	"time"
@@ -1095,12 +1096,83 @@ func streamKeys(o opts) {
 			}
 			return padded{1, uint64(i % 4), 3}, padded{1, uint64(i % 4), 3}
 		}, n, pol)
+		keyTrial(m, "array of strings", func(i int) ([2]string, [2]string) {
+			s, t := fmt.Sprintf("a%d", i%7), fmt.Sprintf("b%d", i%3)
+			return [2]string{s, t}, [2]string{string([]byte(s)), strings.Clone(t)}
+		}, n, pol)
+		keyTrial(m, "array of structs with strings", func(i int) ([2]withStr, [2]withStr) {
+			s := fmt.Sprintf("q%d", i%6)
+			return [2]withStr{{s, 1}, {"z", int32(i % 2)}}, [2]withStr{{string([]byte(s)), 1}, {strings.Clone("z"), int32(i % 2)}}
+		}, n, pol)
+		keyTrial(m, "nested struct", func(i int) (nestedKey, nestedKey) {
+			s := fmt.Sprintf("n%d", i%5)
+			return nestedKey{withStr{s, 2}, [2]uint8{uint8(i % 3), 7}, i%2 == 0}, nestedKey{withStr{string([]byte(s)), 2}, [2]uint8{uint8(i % 3), 7}, i%2 == 0}
+		}, n, pol)
+		keyTrial(m, "bool", func(i int) (bool, bool) { return i%2 == 0, i%2 == 0 }, n, pol)
+		keyTrial(m, "complex128", func(i int) (complex128, complex128) {
+			if i%4 == 0 {
+				return complex(0, 0), complex(math.Copysign(0, -1), 0)
+			}
+			return complex(float64(i%5), 1), complex(float64(i%5), 1)
+		}, n, pol)
+		keyTrial(m, "long string differing late", func(i int) (string, string) {
+			s := strings.Repeat("x", 40+i%3) + fmt.Sprint(i%9)
+			return s, string([]byte(s))
+		}, n, pol)
+		concurrentKeyTrial(m, pol, round)
 		pointerKeyTrial(m, pol, round)
 		m.nontrivial(fmt.Sprintf("round%d/p%d", round%8, pol))
 	}
 	m.Traces, m.Ops = o.n*20, o.n*20*200
 	m.sample("float64 key: Set(+0.0) then Get(-0.0); uint64 key whose Avalanche hash is exactly 1 stored next to a colliding key")
 	m.write(o.out)
+}
+
+type nestedKey struct {
+	S withStr
+	A [2]uint8
+	B bool
+}
+
+// concurrentKeyTrial: equal keys address the same entry also when several goroutines hash at the same time (the
+// hasher must not carry mutable state shared between callers): 256 struct keys and 256 array keys in an unbounded
+// cache, eight goroutines read and rewrite them through freshly built equal keys.
+func concurrentKeyTrial(m *meta, pol kioshun.EvictionPolicy, round int) {
+	c, err := kioshun.New[withStr, int](kioshun.Config{MaxSize: 0, ShardCount: 4, EvictionPolicy: pol})
+	must(err)
+	defer c.Close()
+	c2, err := kioshun.New[[2]string, int](kioshun.Config{MaxSize: 0, ShardCount: 4, EvictionPolicy: pol})
+	must(err)
+	defer c2.Close()
+	const nk = 256
+	for i := 0; i < nk; i++ {
+		c.Set(withStr{fmt.Sprintf("c%d", i), int32(i)}, i, kioshun.NoExpiration)
+		c2.Set([2]string{fmt.Sprintf("d%d", i), "t"}, i, kioshun.NoExpiration)
+	}
+	var wg sync.WaitGroup
+	var miss atomic.Int64
+	for g := 0; g < 8; g++ {
+		wg.Add(1)
+		go func(g int) {
+			defer wg.Done()
+			for i, t0 := 0, time.Now(); i < 4000 && time.Since(t0) < time.Second; i++ {
+				k := (i*7 + g) % nk
+				if v, ok := c.Get(withStr{string([]byte(fmt.Sprintf("c%d", k))), int32(k)}); !ok || v != k {
+					miss.Add(1)
+				}
+				c.Set(withStr{fmt.Sprintf("c%d", k), int32(k)}, k, kioshun.NoExpiration)
+				if v, ok := c2.Get([2]string{string([]byte(fmt.Sprintf("d%d", k))), strings.Clone("t")}); !ok || v != k {
+					miss.Add(1)
+				}
+				c2.Set([2]string{fmt.Sprintf("d%d", k), "t"}, k, kioshun.NoExpiration)
+			}
+		}(g)
+	}
+	wg.Wait()
+	if miss.Load() > 0 || c.Size() != nk || c2.Size() != nk {
+		m.violate("C18", fmt.Sprintf("concurrent trial (policy %v): %d resident struct / array keys read and rewritten through equal keys by 8 goroutines: %d lookups missed, Size()=%d and %d (want %d each): equal keys addressed different entries under concurrent hashing", pol, nk, miss.Load(), c.Size(), c2.Size(), nk), "concurrent keys")
+	}
+	m.count("concurrent_key_trials")
 }
 
 // pointerKeyTrial: pointer keys (concrete and behind an interface-typed key) are identified by their address:
